@@ -10,6 +10,14 @@ check("C11", "exhaustive enumeration of bounded token/byte sequences and file mu
       "All fragment sequences up to a length bound over closed alphabets, in all three modes, plus all single token/byte mutations of every repository .py file and size-limit programs, are compiled by the real pipeline; each result must be a code object or a located SyntaxError. Exhaustive within the printed bounds.",
       "totality over all byte strings is approximated by the closed alphabets and length bounds; hang detection is a 150 s no-progress watchdog",
       "DESIGN.md section 4 C11")
+check("C01", "exhaustive enumeration of bounded expression and assignment trees whose operands log their own evaluation, compared step by step with a reference evaluator; all operator pairs/triples against a reference recursive-descent parser",
+      "Every operator form at depth 1 over 7 leaf values with the full operator alphabet, every combination of composite operands (falsy, truthy, raising instance of every form) in every child position at depth 2 (thorough: depth 3), all assignment forms (chained, tuple, starred, subscript/attribute/slice targets on logging containers, 12 augmented operators x 4 target kinds, del) and all unparenthesised operator pairs (thorough: triples) with all value assignments over {0,1,2}; the real pipeline's operand log and value/exception type must equal the reference evaluator's.",
+      "cases whose value semantics are outside the small value model (float results of **, string formatting, identity of non-singletons) are skipped and counted; dict-display key/value order accepts both the reference order and CPython 3.4's; user-defined operator overloading is not in the alphabet (operands are logging calls)",
+      "DESIGN.md section 4 C01")
+check("C02", "exhaustive enumeration of bounded statement trees (every leaf at every position) executed on the real pipeline against a reference structural operational semantics",
+      "Every statement tree within a node budget and nesting depth over loops with else, if, try with 8 handler layouts x else x finally, with (3 __exit__ behaviours), nested call frames and the leaves log / raise E / bare raise / return / break / continue is compiled and run; the path log (incl. __enter__/__exit__ exactly once), compile-time rejection, uncaught exception type, return value and traceback lines must equal the reference semantics.",
+      "bounded tree size (quick 4-5 nodes, thorough 5-7); built-in exception hierarchy only; extra traceback entries at bare-raise lines accepted (3.4 vs later versions)",
+      "DESIGN.md section 4 C02")
 check("C07", "exhaustive enumeration of a boundary operand lattice against a math/big reference model, via Go API (both representations) and compiled source",
       "All ordered pairs (triples for pow) of a boundary lattice around 0, 2^7..2^192, floor(2^31.5), IntMax/IntMin with +-3 neighbours x every integer operator, shift, power, unary form and text conversion, executed through the Go API with operands in machine-word and forced arbitrary-precision representation and as compiled source text, compared value-for-value with math/big. Exhaustive over the lattice.",
       "math/big is trusted; operands outside the lattice are not covered (the property's 'seeded random operands' are replaced by a larger exhaustive lattice)",
